@@ -50,7 +50,7 @@ fn operands(biff12: bool) -> (Vec<Expr>, Vec<Expr>) {
     l0.push(Expr::Num(1.5)); l0.push(Expr::Num(0.25));
     for s in ["a", "x y", "", "A1", "caf\u{e9}", "\u{20ac}5", " pad ", "\u{20ac} "] { l0.push(Expr::Str(s.into())); }
     l0.push(Expr::Bool(true)); l0.push(Expr::Bool(false));
-    for e in [0x00u8, 0x07, 0x0F, 0x17, 0x1D, 0x24, 0x2A] { l0.push(Expr::Err(e)); }
+    for e in [0x00u8, 0x07, 0x0F, 0x17, 0x1D, 0x24, 0x2A, 0x2B] { l0.push(Expr::Err(e)); }
     let s0 = vec![
         Expr::Ref(cref(0, 0, false, false)), Expr::Ref(cref(0, 26, true, true)), Expr::Ref(cref(6, 3, true, false)), Expr::Ref(cref(6, 27, false, true)),
         Expr::Area(cref(0, 0, false, false), cref(2, 1, false, false)), Expr::Ref3d(1, cref(0, 1, false, false)), Expr::Area3d(0, cref(0, 0, true, true), cref(3, 2, true, true)),
@@ -288,8 +288,13 @@ fn file_level(rep: &Report, fmt: &'static str, asts: &[Expr], thorough: bool) {
                     let val = match p.0 % 4 { 0 => xlsb::BVal::FmlaNum(1.0, rgce), 1 => xlsb::BVal::FmlaStr("s".into(), rgce), 2 => xlsb::BVal::FmlaBool(true, rgce), _ => xlsb::BVal::FmlaErr(7, rgce) };
                     items.push(xlsb::BItem::Cell { row: p.0, col: p.1, style: 0, val });
                 }
-                let book = xlsb::BBook { sheets: vec![xlsb::BSheet::new(SHEETS[0], items), xlsb::BSheet::new(SHEETS[1], vec![]), xlsb::BSheet::new(SHEETS[2], vec![])],
-                    extern_sheets: Some(XTI_TAB.iter().map(|i| (*i as i32, *i as i32)).collect()),
+                // every fourth block of 16 files has a chart sheet as the second tab: tab indices in the XTI table count it
+                let chart = (gi / 16) % 4 == 3;
+                let mut sheets = vec![xlsb::BSheet::new(SHEETS[0], items), xlsb::BSheet::new(SHEETS[1], vec![]), xlsb::BSheet::new(SHEETS[2], vec![])];
+                if chart { let mut c = xlsb::BSheet::new("Chart1", vec![]); c.dir = "chartsheets"; sheets.insert(1, c); }
+                let tab = |i: usize| -> i32 { if chart && i >= 1 { i as i32 + 1 } else { i as i32 } };
+                let book = xlsb::BBook { sheets,
+                    extern_sheets: Some(XTI_TAB.iter().map(|i| (tab(*i), tab(*i))).collect()),
                     names: macro_lbl(macro_first).into_iter().chain(NAMES.iter().map(|n| (n.to_string(), { let mut r = vec![0x3A, 0, 0]; r.extend(0u32.to_le_bytes()); r.extend(0u16.to_le_bytes()); r }))).collect(), ..Default::default() };
                 xlsb::write(&book, Method::Deflated)
             }
